@@ -26,6 +26,11 @@ func report(c *core.Ctx, fam string, corpus *pipe.Corpus) {
 		key := fmt.Sprintf("%s/%s", fam, d.Name)
 		c.State(key, true)
 		c.Exec(1)
+		if d.Spec != nil && len(d.Spec.Services) > 0 && len(d.Spec.Services[0].Methods) > 0 {
+			c.Sample(map[string]any{"design": key, "services": len(d.Spec.Services), "first_method_feat": d.Spec.Services[0].Methods[0].Feat, "generated_ok": d.Gen.OK, "excluded_methods": len(d.Excluded)})
+		} else {
+			c.Sample(map[string]any{"design": key, "generated_ok": d.Gen.OK})
+		}
 		cs := map[string]any{"family": fam, "design": d.Name, "dir": d.Dir}
 		switch {
 		case !d.Gen.OK:
